@@ -45,7 +45,7 @@ def gen_fn_scenario(rng: random.Random, static_only=True, simple_sigs=False, bod
     type_vals = []
     if type_args:
         # C14: type-valued arguments (classes, parametrised generics, nested) and type[...] annotations
-        from world import C_INT, C_LIST, C_OBJECT, C_TYPE
+        from world import C_INT, C_LIST, C_OBJECT, C_TUPLE, C_TYPE
 
         user = list(range(NBUILTIN, w.n))
         gens = [NBUILTIN + i for i, u in enumerate(w.desc["user"]) if u["kind"] == "generic"]
@@ -54,8 +54,11 @@ def gen_fn_scenario(rng: random.Random, static_only=True, simple_sigs=False, bod
             r = rng.random()
             if depth <= 0 or r < 0.55:
                 return ["cls", rng.choice(user + [C_INT, C_OBJECT])]
-            if r < 0.85 or not gens:
+            if r < 0.7:
                 return ["gen", C_LIST, [tval(depth - 1)]]
+            if r < 0.85 or not gens:
+                # tuple aliases: same origin, different numbers of arguments
+                return ["gen", C_TUPLE, [tval(depth - 1) for _ in range(rng.choice([1, 2, 2, 3]))]]
             return ["gen", rng.choice(gens), [tval(depth - 1)]]
 
         type_vals = []
